@@ -649,9 +649,22 @@ func execReadFile(n *Node, sc *Scenario) *Violation {
 				len(po.File.Structs)+len(po.File.Messages)+len(po.File.Enums)+len(po.File.Unions)+len(po.File.Consts)),
 			Facts: map[string]string{"mode": mode, "context": ctx}}
 	}
+	if po.Err == nil && sc.Reader != "bytesreader" && sc.Reader != "bytesbuffer" && sc.Reader != "stringsreader" && po.Link.Pos < len(sc.Input) {
+		// success is a statement about the WHOLE input: it cannot be made before the reader
+		// has handed over its last byte
+		return &Violation{Class: "silent-drop", Signature: "silent-drop|readfile|input-not-read",
+			Detail: fmt.Sprintf("ReadFile returned a nil error after taking only %d of the %d bytes its reader (%s) had to give", po.Link.Pos, len(sc.Input), sc.Reader),
+			Facts:  map[string]string{"context": "input-not-read", "reader": sc.Reader}}
+	}
 	if sc.Extra["complete"] == "1" && po.Err == nil && sc.RFault == nil {
 		ext := append(append(append([]byte(nil), sc.Input...), '\n'), freshDef...)
-		p2 := parse(ext, nil, nil, "plain")
+		// through the same kind of reader the input itself came through (a reader that names
+		// itself gives the longer input under the same name, as a file that grew does)
+		wk := "plain"
+		if sc.Reader == "named" {
+			wk = "named"
+		}
+		p2 := parse(ext, nil, nil, wk)
 		if p2.Call.Panicked {
 			return readFileViolation(&p2.Call, "ReadFile(input + fresh definition)")
 		}
